@@ -111,6 +111,7 @@ func init() {
 			g.ft.FaultInv = 0.1
 			g.ft.PRetry = 0.5
 			g.ft.PAvail = 0.95
+			g.ft.PReenter = []float64{0, 0, 0.1}[g.r.Intn(3)]
 		}, Mix{Scope: 2, Provide: 8, Decorate: 3, Invoke: 12, VisStr: 0}),
 		Eval: evalSimple("C02", func(c *Checked) bool { return consumedOften(c) }),
 	})
@@ -195,6 +196,11 @@ func init() {
 		Rule: "history with an Invoke whose dependency closure has at least 2 functions while at least 2 registered functions in at least 2 scopes are outside it (bystanders)",
 		Gen: genGeneric("C03", func(g *genCtx) {
 			noFaults(g)
+			if g.r.Intn(3) == 0 {
+				// laziness must also hold around failures: what a failed
+				// Invoke leaves behind must not make later Invokes skip work
+				g.ft.FaultRate, g.ft.PRetry = 0.15, 0.5
+			}
 			g.ft.PAvail = 0.9
 			if g.ft.MaxScopes < 2 {
 				g.ft.MaxScopes = 2
@@ -354,6 +360,7 @@ func init() {
 			g.h.Cfg.Defer = g.r.P(0.35)
 			g.m.Defer = g.h.Cfg.Defer
 			g.ft.As = false
+			g.ft.PReenter = []float64{0, 0, 0.1}[g.r.Intn(3)]
 			switch g.r.Intn(6) {
 			case 0:
 				g.tmpl = (*genCtx).tmplCrossSiblingCycle
